@@ -43,6 +43,16 @@ type Input struct {
 	Unit   string `json:"unit,omitempty"`
 	Count  int    `json:"count,omitempty"`
 	Suffix string `json:"suffix,omitempty"`
+	// round-2 streams: Mode "" = one BUILD file (above); "seq" = Parser.ParseFile over Seq (file kinds: 0 does not
+	// parse - contents Bad[i] -, 1 parses but does not interpret, 2 fine) on one parser with Slots parse slots;
+	// "conc" = failing parses from Workers goroutines for Ms milliseconds in a child process; "shared" = do two
+	// error values share their line tables
+	Mode    string   `json:"mode,omitempty"`
+	Slots   int      `json:"slots,omitempty"`
+	Seq     []int    `json:"seq,omitempty"`
+	Bad     []string `json:"bad,omitempty"`
+	Workers int      `json:"workers,omitempty"`
+	Ms      int      `json:"ms,omitempty"`
 }
 
 func mk(gen string, data []byte) Input {
@@ -567,6 +577,68 @@ func window(r *lib.Rng, data []byte, max int) []byte {
 	return data[start:end]
 }
 
+
+// ---------------------------------------------------------------------------------------------
+// round-2 streams
+
+// failing inputs for the concurrent stream: errors in the first token, on the first line, on a later line
+var concInputs = []string{"$", "x = (", "x = 1\ny = [1, 2\nz = $\n", "def f(:\n", "if x:\n  y = 1\n z = 2\n", "x = 'unterminated\n", "\tx = 1\n", "x = f\"{\"\n"}
+
+type concResult struct {
+	Calls int64 `json:"calls"`
+	Bad   int64 `json:"bad"`
+}
+
+// concChild: failing parses from many goroutines on ONE parser in THIS process; a data race on the error path
+// aborts it (fatal error: concurrent map ...), which the parent sees as the exit status.
+func concChild(workers, ms string) {
+	gologging.SetLevel(gologging.CRITICAL, "plz")
+	w, _ := strconv.Atoi(workers)
+	m, _ := strconv.Atoi(ms)
+	ins := make([][]byte, len(concInputs))
+	for i, x := range concInputs {
+		ins[i] = []byte(x)
+	}
+	calls, bad := asp.VerifC19ConcurrentFailing(w, ins, time.Duration(m)*time.Millisecond)
+	js, _ := json.Marshal(concResult{Calls: calls, Bad: bad})
+	os.Stdout.Write(append(js, '\n'))
+}
+
+// runConc runs the child and returns its result, its exit error text ("" when it exited 0) and its stderr.
+func runConc(workers, ms int) (concResult, string, string) {
+	cmd := exec.Command(os.Args[0], "c19-conc-child", strconv.Itoa(workers), strconv.Itoa(ms))
+	var stdout, stderr bytes.Buffer
+	cmd.Stdout = &stdout
+	cmd.Stderr = &limitedWriter{w: &stderr, n: 1 << 16}
+	if err := cmd.Start(); err != nil {
+		panic(err)
+	}
+	done := make(chan error, 1)
+	go func() { done <- cmd.Wait() }()
+	var res concResult
+	select {
+	case err := <-done:
+		if err != nil {
+			return res, err.Error(), stderr.String()
+		}
+	case <-time.After(time.Duration(ms)*time.Millisecond + 120*time.Second):
+		cmd.Process.Kill()
+		<-done
+		return res, "timeout", stderr.String()
+	}
+	if json.Unmarshal(bytes.TrimSpace(stdout.Bytes()), &res) != nil {
+		return res, "no result line", stderr.String()
+	}
+	return res, "", stderr.String()
+}
+
+func coqBool(b bool) string {
+	if b {
+		return "true"
+	}
+	return "false"
+}
+
 // ---------------------------------------------------------------------------------------------
 // Coq printing
 
@@ -737,6 +809,10 @@ func main() {
 		child()
 		return
 	}
+	if len(os.Args) > 3 && os.Args[1] == "c19-conc-child" {
+		concChild(os.Args[2], os.Args[3])
+		return
+	}
 	lib.Main("C19", func(c *lib.Ctx) {
 		gologging.SetLevel(gologging.CRITICAL, "plz")
 		c.Model("From PlzV Require Import Model.C19.", "C19.case", "C19.check")
@@ -748,7 +824,10 @@ func main() {
 			"(e) nesting/repetition 10^3-10^4 deep in-process and 10^6-10^7 deep in a child process. Each input is lexed (real lexer alone) and parsed through the PUBLIC entry points, each under a recover: Parser.ParseData, Parser.ParseFileOnly (a file on disk) and, when it does not parse, Parser.ParseReader - a panic that leaves one is the defect class panic-escapes-public-entry-point, a different result kind / statement count / error position is entry-points-disagree; " +
 			"model cases compare the whole token stream (type, value, position) or the lexer error position, and the parse result kind, statement count or error position; " +
 			"the oracle also tests the lexer postcondition of C19_lex_tokens (quotes of String tokens, non-empty Int, empty EOF value, non-decreasing positions, EOF last) on every real token stream. " +
-			"distinct = distinct byte strings; non-trivial = at least 3 tokens or a parse error")
+			"(f) every positioned error is PRINTED (err.Error()) under a recover, for an unreadable source (ParseData under a name that is not a file: line 1, column = offset+1, so the caret lies beyond the displayed line for every error after line 1) and a file on disk, coloured and plain: a panic is the class panic-while-printing-positioned-error; model cases RenderCase (context, len(line), column, coloured -> full / short / panic), one per distinct tuple; " +
+			"(g) ONE Parser (real interpreter, parse.numthreads = 1, 2, 3, 10) runs Parser.ParseFile over sequences of files that do not parse / do not interpret / are fine, always more malformed files than parse slots, a 15 s watchdog per call and the limiter's occupancy read after each call: classes parsefile-never-returns-after-failed-parses, parse-slot-not-released-by-parsefile; model cases SeqCase; " +
+			"(h) two failing parses must not share their line-table map (error-line-tables-shared-between-parses; model case SharedCase) and a child process runs failing parses under distinct names from 16 goroutines on one Parser for 2.5 s (30 s thorough): an abort by the Go runtime is fatal-concurrent-map-access-in-failing-parses. " +
+			"distinct = distinct byte strings (sequences: distinct kind lists); non-trivial = at least 3 tokens or a parse error")
 
 		tStart := time.Now()
 		repo := os.Getenv("VERIF_REPO")
@@ -773,6 +852,9 @@ func main() {
 			panic(err)
 		}
 		defer os.RemoveAll(entryDir)
+
+		renderSeen := map[string]bool{}
+		renderMax := c.Scale(500, 6000)
 
 		// one evaluation: implementation run + oracle (+ model case when withModel)
 		eval := func(in Input, withModel bool) {
@@ -845,13 +927,148 @@ func main() {
 					}
 				}
 			}
+			// PRINTING the error: a positioned error is worth nothing if err.Error() - what plz, the language server
+			// and the formatter do with it - panics. Readable source (a file on disk: line table known) and unreadable
+			// source (ParseData under a name that is not a file: line 1, column = offset + 1), coloured and plain.
+			if po.Kind == "positioned" && len(data) <= 20000 {
+				for _, onDisk := range []string{"", filepath.Join(entryDir, "BUILD")} {
+					for _, coloured := range []bool{false, true} {
+						rr := asp.VerifC19RenderError(data, onDisk, coloured)
+						c.Oracle()
+						src := "unreadable"
+						if onDisk != "" {
+							src = "on-disk"
+						}
+						c.Hist("render-"+src+"-coloured="+coqBool(coloured), rr.Kind)
+						switch rr.Kind {
+						case "crash":
+							c.Fail("panic-while-printing-positioned-error", fmt.Sprintf("err.Error() panicked (source %s, coloured=%v, line %d column %d, displayed line of %d bytes): %s", src, coloured, rr.Line, rr.Column, rr.LineLen, rr.Msg), in)
+						case "full":
+							if !strings.Contains(rr.Msg, rr.Short) {
+								c.Fail("printed-error-lost-its-message", fmt.Sprintf("the printed error %q does not contain %q", rr.Msg, rr.Short), in)
+							}
+						case "short":
+						default:
+							c.Fail("entry-points-disagree", fmt.Sprintf("ParseData: positioned, but when rendering (source %s): %s %s", src, rr.Kind, rr.Msg), in)
+						}
+						if rr.Line < 1 || rr.Column < 1 {
+							c.Fail("error-position-not-one-based", fmt.Sprintf("line %d column %d (source %s)", rr.Line, rr.Column, src), in)
+						}
+						obs := map[string]int{"full": 0, "short": 1, "crash": 2}
+						if o, ok := obs[rr.Kind]; ok {
+							key := fmt.Sprintf("render/%v/%d/%d/%v/%d", rr.HasContext, rr.LineLen, rr.Column, coloured, o)
+							if !renderSeen[key] && len(renderSeen) < renderMax {
+								renderSeen[key] = true
+								c.Case(lib.App("RenderCase", coqBool(rr.HasContext), coqZ(rr.LineLen), coqZ(rr.Column), coqBool(coloured), lib.N(uint64(o))),
+									map[string]any{"input": in, "render": rr, "coloured": coloured, "source": src}, key, true)
+							}
+						}
+					}
+				}
+			}
 			if el > 120*time.Second && len(data) < 100000 {
 				c.Fail("parse-too-slow", fmt.Sprintf("parsing %d bytes took %v", len(data), el), in)
 			}
 		}
 
+
+		// ---- one parser, many files (Parser.ParseFile), with a watchdog per call
+		seqDir, err := os.MkdirTemp(entryBase, "verif-c19-seq-")
+		if err != nil {
+			panic(err)
+		}
+		defer os.RemoveAll(seqDir)
+		watchdog := 15 * time.Second
+		runSeq := func(in Input) {
+			files := make([]string, len(in.Seq))
+			nb := 0
+			for i, k := range in.Seq {
+				files[i] = filepath.Join(seqDir, fmt.Sprintf("f%d", i), "BUILD")
+				os.MkdirAll(filepath.Dir(files[i]), 0o755)
+				content := "x = 1\ny = [x, 2]\n"
+				switch k {
+				case 0:
+					content = in.Bad[nb%len(in.Bad)]
+					nb++
+				case 1:
+					content = "x = 1\ny = no_such_name_c19\n"
+				}
+				if err := os.WriteFile(files[i], []byte(content), 0o644); err != nil {
+					panic(err)
+				}
+			}
+			steps, capacity := asp.VerifC19ParseFileSeq(in.Slots, files, watchdog)
+			c.Oracle()
+			c.Hist("generator", in.Gen)
+			blocked, k, inuse := false, len(steps), 0
+			for i, st := range steps {
+				c.Hist("parsefile-seq-kind-"+strconv.Itoa(in.Seq[i]), st.Kind)
+				switch {
+				case st.Blocked:
+					blocked, k = true, i
+					c.Fail("parsefile-never-returns-after-failed-parses", fmt.Sprintf("Parser.ParseFile call %d (file kind %d) on one parser with %d parse slots did not return within %v; %d slots occupied, nothing else running", i, in.Seq[i], capacity, watchdog, st.InUse), in)
+				case st.Kind == "crash":
+					c.Fail("panic-escapes-public-entry-point", "a panic left Parser.ParseFile: "+st.Msg, in)
+				case st.InUse != 0:
+					c.Fail("parse-slot-not-released-by-parsefile", fmt.Sprintf("after Parser.ParseFile call %d (file kind %d, result %s) returned, %d of %d parse slots are still occupied and nothing is running", i, in.Seq[i], st.Kind, st.InUse, capacity), in)
+				case in.Seq[i] == 0 && st.Kind != "positioned":
+					c.Fail("entry-points-disagree", fmt.Sprintf("Parser.ParseFile on a malformed file: %s %s", st.Kind, st.Msg), in)
+				case in.Seq[i] == 2 && st.Kind != "ok":
+					c.Fail("entry-points-disagree", fmt.Sprintf("Parser.ParseFile on a well-formed file: %s %s", st.Kind, st.Msg), in)
+				case in.Seq[i] == 1 && st.Kind == "ok":
+					c.Fail("entry-points-disagree", "Parser.ParseFile on a file with an undefined name: no error", in)
+				}
+				inuse = st.InUse
+			}
+			outs := make([]uint32, len(in.Seq))
+			for i, k := range in.Seq {
+				outs[i] = uint32(k)
+			}
+			js, _ := json.Marshal(in)
+			sum := sha1.Sum(js)
+			c.Case(lib.App("SeqCase", lib.N(uint64(capacity)), lib.NList(outs), coqBool(blocked), lib.N(uint64(k)), lib.N(uint64(inuse))),
+				map[string]any{"input": in, "steps": steps, "capacity": capacity}, string(sum[:]), true)
+		}
+		runShared := func(in Input) {
+			shared, why := asp.VerifC19ErrorStateShared()
+			c.Oracle()
+			c.Hist("generator", in.Gen)
+			if shared {
+				c.Fail("error-line-tables-shared-between-parses", "two parses that fail (on any goroutines, no lock on the error path) read and write ONE files map: "+why, in)
+			}
+			c.Case(lib.App("SharedCase", coqBool(shared)), map[string]any{"input": in, "shared": shared}, "shared", true)
+		}
+		runConcurrent := func(in Input) {
+			res, exit, stderr := runConc(in.Workers, in.Ms)
+			c.Oracle()
+			c.Eval(map[string]any{"input": in, "result": res, "exit": exit}, fmt.Sprintf("conc/%d/%d", in.Workers, in.Ms), true)
+			c.Hist("generator", in.Gen)
+			c.Note("concurrent failing parses: %d workers, %d ms: %d calls, %d without position, exit %q", in.Workers, in.Ms, res.Calls, res.Bad, exit)
+			switch {
+			case exit != "" && strings.Contains(stderr, "concurrent map"):
+				c.Fail("fatal-concurrent-map-access-in-failing-parses", fmt.Sprintf("the process running failing parses on %d goroutines was aborted by the Go runtime: %s", in.Workers, firstLine(stderr)), in)
+			case exit != "":
+				c.Fail("parser-process-died-in-concurrent-failing-parses", "exit: "+exit+" "+firstLine(stderr), in)
+			case res.Bad > 0:
+				c.Fail("concurrent-failing-parse-without-position", fmt.Sprintf("%d of %d concurrent failing parses did not yield a positioned error under their own file name", res.Bad, res.Calls), in)
+			case res.Calls < int64(in.Workers):
+				c.Fail("concurrent-failing-parses-made-no-progress", fmt.Sprintf("only %d calls", res.Calls), in)
+			}
+		}
+
 		var replay Input
 		if c.ReadReplay(&replay) {
+			switch replay.Mode {
+			case "seq":
+				runSeq(replay)
+				return
+			case "shared":
+				runShared(replay)
+				return
+			case "conc":
+				runConcurrent(replay)
+				return
+			}
 			if replay.Count > 100000 {
 				res := isolated([]Input{replay}, 10*time.Minute, 0)
 				c.Oracle()
@@ -893,6 +1110,44 @@ func main() {
 			}
 		}
 		c.Note("first-token family: %d inputs", nFirst)
+
+		// (f) one parser over many files: sequences of file kinds on parsers with 1, 2, 3 and 10 parse slots, always
+		// with more malformed files than slots; (g) error values of two parses must not share state; (h) failing
+		// parses from 16 goroutines in a child process
+		badPool := []string{"$", "x = (", "x = 1\ny = [1, 2\nz = $\n", "def f(:\n", "\tx = 1\n", "x = 'unterminated\n", "if x:\n  y = 1\n z = 2\n", "x = f\"{\"\n", "", "\x00("}
+		badPool = badPool[:8]
+		nSeq := 0
+		for _, slots := range []int{1, 2, 3, 10} {
+			// only malformed files: slots+2 of them
+			seq := make([]int, slots+2)
+			runSeq(Input{Gen: "parsefile-seq", Mode: "seq", Slots: slots, Seq: seq, Bad: badPool})
+			nSeq++
+			for j := 0; j < c.Scale(2, 25); j++ {
+				r := c.Rng.Fork()
+				n := slots + r.Range(2, 6)
+				seq := make([]int, 0, 2*n)
+				bad := 0
+				for bad < n {
+					k := lib.Pick(r, []int{0, 0, 0, 1, 2})
+					if k == 0 {
+						bad++
+					}
+					seq = append(seq, k)
+				}
+				seq = append(seq, lib.Pick(r, []int{0, 1, 2}))
+				pool := append([]string{}, badPool...)
+				for i := range pool {
+					q := r.Intn(i + 1)
+					pool[i], pool[q] = pool[q], pool[i]
+				}
+				runSeq(Input{Gen: "parsefile-seq", Mode: "seq", Slots: slots, Seq: seq, Bad: pool})
+				nSeq++
+			}
+		}
+		c.Note("parsefile sequences: %d (done after %.1fs)", nSeq, time.Since(tStart).Seconds())
+		runShared(Input{Gen: "error-state-shared", Mode: "shared"})
+		runConcurrent(Input{Gen: "concurrent-failing-parses", Mode: "conc", Workers: 16, Ms: c.Scale(2500, 30000)})
+		c.Note("round-2 streams done after %.1fs", time.Since(tStart).Seconds())
 
 		// (a) grammar programs, raw and mutated; (b) repository BUILD files; (c) random bytes - interleaved so that
 		// the model cases of every kind are spread evenly over the case files
